@@ -9,6 +9,7 @@ pub mod c08;
 pub mod c12;
 pub mod c14;
 pub mod c16;
+pub mod c17;
 pub mod c19;
 
 pub fn run(ctx: &Ctx) -> bool {
@@ -22,6 +23,7 @@ pub fn run(ctx: &Ctx) -> bool {
         "C12" => c12::run(ctx),
         "C14" => c14::run(ctx),
         "C16" => c16::run(ctx),
+        "C17" => c17::run(ctx),
         "C19" => c19::run(ctx),
         _ => return false,
     }
@@ -40,6 +42,7 @@ fn replay_one(ctx: &Ctx, sub: &str, input: &serde_json::Value) -> Option<Result<
         "C12" => c12::replay(ctx, sub, input),
         "C14" => c14::replay(ctx, input),
         "C16" => c16::replay(ctx, sub, input),
+        "C17" => c17::replay(ctx, sub, input),
         "C19" => c19::replay(ctx, input),
         _ => return None,
     })
